@@ -221,12 +221,14 @@ theorem exchange_zip_segmented (P : Frame → Resp) (depth : Nat) (issued : List
 def UseOut.Failed : UseOut → Prop
   | .openfail _ _ => True
   | .ran _ _ (.error _) => True
+  | .identified _ (some _) => True
   | _ => False
 
 /-- what a use reports, as a value comparable across uses -/
 def UseOut.conn : UseOut → Option Nat
   | .openfail n _ => some n
   | .ran n _ _ => some n
+  | .identified n _ => some n
   | .refused => none
 
 /-- **Any failure discards the gateway**: after a use that failed — while connecting, while identifying the
@@ -242,8 +244,11 @@ theorem proxy_failure_discards (P : Frame → Resp) (ident : Bool) (depth : Nat)
     rw [hg] at h
     dsimp only at h ⊢
     revert h
-    rcases pipeline P depth 0 issued st with ⟨rs', e', st'⟩
-    cases e' <;> simp [UseOut.Failed]
+    by_cases hsf : (!issued.isEmpty && sendFails st) = true
+    · simp [hsf]
+    · simp only [hsf]
+      rcases pipeline P depth 0 issued st with ⟨rs', e', st'⟩
+      cases e' <;> simp [UseOut.Failed]
   | none =>
     rw [hg] at h
     dsimp only at h ⊢
@@ -260,6 +265,51 @@ theorem proxy_failure_discards (P : Frame → Resp) (ident : Bool) (depth : Nat)
         revert h
         rcases pipeline P depth 0 issued st with ⟨rs', e', st'⟩
         cases e' <;> simp [UseOut.Failed]
+
+/-- the same for `proxy.list_identity()` (run by `@maintain_gateway` inside `with proxy:`): when its List Identity
+exchange fails — on an established gateway or on one it had to open — no gateway is kept -/
+theorem proxy_identity_failure_discards (ident : Bool) (conns : List (List Ev)) (p : Proxy)
+    (h : (proxyIdentify ident conns p).2.Failed) : (proxyIdentify ident conns p).1.gateway = none := by
+  unfold proxyIdentify at h ⊢
+  cases hg : p.gateway with
+  | some g =>
+    obtain ⟨m, st⟩ := g
+    rw [hg] at h
+    dsimp only at h ⊢
+    revert h
+    cases identify st <;> simp [UseOut.Failed]
+  | none =>
+    rw [hg] at h
+    dsimp only at h ⊢
+    cases hc : conns[p.opened]? with
+    | none => rw [hc] at h; simp [UseOut.Failed] at h
+    | some evs =>
+      rw [hc] at h
+      dsimp only at h ⊢
+      cases ho : openGateway ident evs with
+      | error e => rfl
+      | ok st =>
+        rw [ho] at h
+        dsimp only at h ⊢
+        revert h
+        cases identify st <;> simp [UseOut.Failed]
+
+/-- a failed `list_identity()` never moves the connection count backwards, so the connection the next use opens
+is a new one -/
+theorem proxy_identity_opened_mono (ident : Bool) (conns : List (List Ev)) (p : Proxy) :
+    p.opened ≤ (proxyIdentify ident conns p).1.opened := by
+  unfold proxyIdentify
+  cases p.gateway with
+  | some g => obtain ⟨m, st⟩ := g; dsimp only; cases identify st <;> simp
+  | none =>
+    dsimp only
+    cases conns[p.opened]? with
+    | none => simp
+    | some evs =>
+      dsimp only
+      cases openGateway ident evs with
+      | error e => simp
+      | ok st => dsimp only; cases identify st <;> simp
 
 /-- **The next use reconnects**: with no gateway, a use opens the next connection — one never used
 before — and its outcome is that of a whole fresh `open_gateway` + operations on it. -/
@@ -295,8 +345,11 @@ theorem proxy_conn_fresh (P : Frame → Resp) (ident : Bool) (depth : Nat) (conn
     obtain ⟨m, st⟩ := g
     have hm := hinv m st hg
     dsimp only
-    rcases pipeline P depth 0 issued st with ⟨rs', e', st'⟩
-    cases e' <;> simp [UseOut.conn] <;> omega
+    by_cases hsf : (!issued.isEmpty && sendFails st) = true
+    · simp [hsf, UseOut.conn]; omega
+    · simp only [hsf]
+      rcases pipeline P depth 0 issued st with ⟨rs', e', st'⟩
+      cases e' <;> simp [UseOut.conn] <;> omega
   | none =>
     dsimp only
     cases hc : conns[p.opened]? with
@@ -372,6 +425,20 @@ theorem proxy_recovers (P : Frame → Resp) (ident : Bool) (depth : Nat) (conns 
   rw [ho] at h3
   dsimp only at h3
   rw [h3, h1, h2]
+
+/-- **after a failed `list_identity()` the next read on a healthy device returns correct data** -/
+theorem identity_failure_then_recovers (P : Frame → Resp) (ident : Bool) (depth : Nat) (conns : List (List Ev))
+    (p : Proxy) (issued : List Iss) (reg idf : Frame) (fs : List Frame) (closed : Bool)
+    (hfail : (proxyIdentify ident conns p).2.Failed)
+    (hc : conns[(proxyIdentify ident conns p).1.opened]? =
+      some [.data (stream (openFrames ident reg idf ++ fs)), termEv closed])
+    (hr : IsRegister reg) (hi : IsIdentity idf) (hs : Served P fs)
+    (hm : AllMatch issued (fs.flatMap (colsOf P)))
+    (hn : issued.length ≤ (fs.flatMap (colsOf P)).length) :
+    (proxyUse P ident depth conns (proxyIdentify ident conns p).1 issued).2 =
+      .ran (proxyIdentify ident conns p).1.opened ((issued.zip (fs.flatMap (colsOf P))).map mkRes) .ok :=
+  proxy_recovers P ident depth conns _ issued reg idf fs closed
+    (proxy_identity_failure_discards ident conns p hfail) hc hr hi hs hm hn
 
 /-- **The last sentence of the property, at full strength**: a use of the proxy fails — for *whatever* reason:
 any fault at any byte offset of the open phase (Register, List Identity) or of the data phase, in either
@@ -539,6 +606,8 @@ def showUseOut : UseOut → Nat × Nat × Option Err
   | .ran n rs .ok => (n, rs.length, none)
   | .ran n rs (.error e) => (n, rs.length, some e)
   | .openfail n _ => (n, 1000, none)
+  | .identified n none => (n, 2000, none)
+  | .identified n (some _) => (n, 2001, none)
   | .refused => (99, 0, none)
 
 /-- the proxy: first connection cut inside reply 1, second connection whole: failure, gateway discarded,
@@ -546,7 +615,7 @@ reconnect on connection 1, correct data -/
 example : (proxyRun parseFrame false 2
       [[.data ((stream (regFrame :: threeReplies)).take 88), .eof],
        [.data (stream (regFrame :: threeReplies)), .quiet]]
-      { gateway := none, opened := 0 } [threeIssued, threeIssued]).map showUseOut =
+      { gateway := none, opened := 0 } [.read threeIssued, .read threeIssued]).map showUseOut =
     [(0, 1, some .rxerror), (1, 3, none)] := by decide +kernel
 
 /-- the proxy identifying its device: first connection cut inside the List Identity reply (offset 28 + 10):
@@ -554,8 +623,24 @@ example : (proxyRun parseFrame false 2
 example : (proxyRun parseFrame true 2
       [[.data ((stream (regFrame :: identFrame :: threeReplies)).take 38), .eof],
        [.data (stream (regFrame :: identFrame :: threeReplies)), .quiet]]
-      { gateway := none, opened := 0 } [threeIssued, threeIssued]).map showUseOut =
+      { gateway := none, opened := 0 } [.read threeIssued, .read threeIssued]).map showUseOut =
     [(0, 1000, none), (1, 3, none)] := by decide +kernel
+
+/-- `list_identity()` on an established gateway whose reply is lost (silence): it fails, the gateway is
+discarded, the next read reconnects on connection 1 -/
+example : (proxyRun parseFrame false 2
+      [[.data (stream (regFrame :: threeReplies)), .quiet],
+       [.data (stream (regFrame :: threeReplies)), .quiet]]
+      { gateway := none, opened := 0 } [.read threeIssued, .identity, .read threeIssued]).map showUseOut =
+    [(0, 3, none), (0, 2001, none), (1, 3, none)] := by decide +kernel
+
+/-- the peer aborts the idle connection after the first use: the next use's first send raises, the gateway is
+discarded, the use after it reconnects -/
+example : (proxyRun parseFrame false 2
+      [[.data (stream (regFrame :: threeReplies)), .reset],
+       [.data (stream (regFrame :: threeReplies)), .quiet]]
+      { gateway := none, opened := 0 } [.read threeIssued, .read threeIssued, .read threeIssued]).map showUseOut =
+    [(0, 3, none), (0, 0, some .senderror), (1, 3, none)] := by decide +kernel
 
 /-! ### Tie to what the live source says (regenerated on every run by `harness/extract.d/clientrx.py`) -/
 
